@@ -435,6 +435,134 @@ theorem c07_sign_report_shape :
 
 example : "            copy(queryResult, sign.Content)" ∈ Gen.DosnodeFlow.recoverSign := by simp [Gen.DosnodeFlow.recoverSign]
 
+/-- **the whole body of `handleQuery`** (round 5; before, nine statements selected by substring were pinned): the context, the nonce (which does not enter the content), `sign` with `Index: pType, RequestId: requestID.Bytes()`, then `choseSubmitter(…, lastRand, ids, 2, …)`, the content stage of the kind on `submitterc[0]` with `lastRand.Bytes()` / `requestID.Bytes(), lastRand.Bytes(), useSeed.Bytes()` / `url, selector`, `genSign`, `dispatchSign(…, submitterc[1], signc, d.reqSignc, d.p, requestID.Bytes(), (len(ids)/2 + 1), …)`, `recoverSign(…, pubPoly, (len(ids)/2 + 1), len(ids), …)`, `reportQueryResult(…, pType, …)` – and NOTHING between them: `lastRand`, `requestID`, `useSeed`, `ids` are never assigned. -/
+theorem c07_handle_query_shape :
+    Gen.DosnodeFlow.handleQuery = [
+      "func handleQuery(ids [][]byte, pubPoly *share.PubPoly, sec *share.PriShare, groupID string, requestID, lastRand, useSeed *big.Int, url, selector string, pType uint32)",
+      "  queryCtx, cancel := context.WithTimeout(context.Background(), time.Duration(60*d.chain.GetBlockTime())*time.Second)",
+      "  defer cancel()",
+      "  queryCtxWithValue := context.WithValue(context.WithValue(queryCtx, ctxKey(\"RequestID\"), fmt.Sprintf(\"%x\", requestID)), ctxKey(\"GroupID\"), groupID)",
+      "  defer cancel()",
+      "  var nonce []byte",
+      "  switch pType",
+      "    case onchain.TrafficSystemRandom",
+      "      var bytes []byte",
+      "      bytes = append(bytes, []byte(groupID)...)",
+      "      bytes = append(bytes, requestID.Bytes()...)",
+      "      bytes = append(bytes, lastRand.Bytes()...)",
+      "      nHash := sha256.Sum256(bytes)",
+      "      nonce = nHash[:]",
+      "    case onchain.TrafficUserRandom",
+      "      var bytes []byte",
+      "      bytes = append(bytes, []byte(groupID)...)",
+      "      bytes = append(bytes, requestID.Bytes()...)",
+      "      bytes = append(bytes, lastRand.Bytes()...)",
+      "      bytes = append(bytes, useSeed.Bytes()...)",
+      "      nHash := sha256.Sum256(bytes)",
+      "      nonce = nHash[:]",
+      "    case onchain.TrafficUserQuery",
+      "      var bytes []byte",
+      "      bytes = append(bytes, []byte(groupID)...)",
+      "      bytes = append(bytes, requestID.Bytes()...)",
+      "      bytes = append(bytes, lastRand.Bytes()...)",
+      "      bytes = append(bytes, []byte(url)...)",
+      "      bytes = append(bytes, []byte(selector)...)",
+      "      nHash := sha256.Sum256(bytes)",
+      "      nonce = nHash[:]",
+      "  sign := &vss.Signature{ Index: pType, RequestId: requestID.Bytes(), Nonce: nonce, }",
+      "  var errcList []chan error",
+      "  submitterc, errc := choseSubmitter(queryCtxWithValue, d.p, d.chain, lastRand, ids, 2, d.logger)",
+      "  errcList = append(errcList, errc)",
+      "  var contentc chan []byte",
+      "  switch pType",
+      "    case onchain.TrafficSystemRandom",
+      "      contentc = genSysRandom(queryCtxWithValue, submitterc[0], lastRand.Bytes(), d.logger)",
+      "    case onchain.TrafficUserRandom",
+      "      contentc = genUserRandom(queryCtxWithValue, submitterc[0], requestID.Bytes(), lastRand.Bytes(), useSeed.Bytes(), d.logger)",
+      "    case onchain.TrafficUserQuery",
+      "      contentc, errc = genQueryResult(queryCtxWithValue, submitterc[0], url, selector, d.logger)",
+      "      errcList = append(errcList, errc)",
+      "  signc, errc := genSign(queryCtxWithValue, contentc, sec, d.suite, sign, d.logger)",
+      "  errcList = append(errcList, errc)",
+      "  signAllc := dispatchSign(queryCtxWithValue, submitterc[1], signc, d.reqSignc, d.p, requestID.Bytes(), (len(ids)/2 + 1), d.logger)",
+      "  errcList = append(errcList, errc)",
+      "  recoveredSignc, errc := recoverSign(queryCtxWithValue, signAllc, d.suite, pubPoly, (len(ids)/2 + 1), len(ids), d.logger)",
+      "  errcList = append(errcList, errc)",
+      "  errcList = append(errcList, reportQueryResult(queryCtxWithValue, d.chain, pType, recoveredSignc))",
+      "  allErrc := mergeErrors(queryCtxWithValue, errcList...)",
+      "  for",
+      "    select",
+      "      case err, ok := <-allErrc",
+      "        if !ok",
+      "          return",
+      "      case <-queryCtxWithValue.Done()",
+      "        return"]
+    ∧ Gen.DosnodeFlow.handleQueryRefs = [
+      "choseSubmitter",
+      "ctxKey",
+      "dispatchSign",
+      "genQueryResult",
+      "genSign",
+      "genSysRandom",
+      "genUserRandom",
+      "mergeErrors",
+      "recoverSign",
+      "reportQueryResult"] := by
+  refine ⟨?_, ?_⟩ <;> rfl
+
+example : "  submitterc, errc := choseSubmitter(queryCtxWithValue, d.p, d.chain, lastRand, ids, 2, d.logger)" ∈ Gen.DosnodeFlow.handleQuery := by simp [Gen.DosnodeFlow.handleQuery]
+
+/-- **`handleCR`** is started by `onchainLoop` with `randSeed` = the `*big.Int` of the latest request event – the SAME object the concurrently started `handleQuery` reads as `lastRand` / `requestID`.  As pinned it only reads it (`Cmp`, bound of `rand.Int`) or rebinds the local name; an in-place operation on it (seeded change C07f: `randSeed.Add(randSeed, …)`) changes this text.  The `evs` cases of the correspondence run check the event objects after the handlers ran. -/
+theorem c07_handle_cr_shape :
+    Gen.DosnodeFlow.handleCR = [
+      "func handleCR(cr *onchain.LogStartCommitReveal, randSeed *big.Int)",
+      "  if randSeed.Cmp(big.NewInt(1)) == -1",
+      "    randSeed, _ = new(big.Int).SetString(\"21888242871839275222246405745257275088548364400416034343698204186575808495617\", 10)",
+      "  sec, err := rand.Int(rand.Reader, randSeed)",
+      "  if err != nil",
+      "    return",
+      "  h := sha3.NewLegacyKeccak256()",
+      "  h.Write(math.U256Bytes(sec))",
+      "  b := h.Sum(nil)",
+      "  hash := byte32(b)",
+      "  currentBlockNumber, err := d.chain.CurrentBlock()",
+      "  if err != nil",
+      "    return",
+      "  cid := cr.Cid",
+      "  waitCommit := cr.StartBlock.Uint64() - currentBlockNumber + 1",
+      "  waitReveal := cr.CommitDuration.Uint64() + 1",
+      "  waitRandom := cr.RevealDuration.Uint64() + 1",
+      "  if waitCommit < 0",
+      "    waitReveal = waitReveal - waitCommit",
+      "    waitRandom = waitRandom - waitCommit",
+      "    waitCommit = 0",
+      "  time.Sleep(time.Duration(waitCommit*d.chain.GetBlockTime()) * time.Second)",
+      "  if err := d.chain.Commit(cid, *hash); err != nil",
+      "  <-time.After(time.Duration(waitReveal*d.chain.GetBlockTime()) * time.Second)",
+      "  if err := d.chain.Reveal(cid, sec); err != nil"] := by
+  rfl
+
+example : "  sec, err := rand.Int(rand.Reader, randSeed)" ∈ Gen.DosnodeFlow.handleCR := by simp [Gen.DosnodeFlow.handleCR]
+
+/-- **every occurrence of the stored member list** (round 5, review H #1): in pdkg.go, pdkg_pipes.go and the dosnode files the field `participants` occurs – in ANY position: left-hand side sub-expression, argument of copy / append / sort, range operand, read – only in the store (`participantsWrites`, the literal of `Grouping`) and in the read of `GetGroupIDs`; and `Grouping` hands its parameter `groupIds` (the stored slice IS that slice) to exactly these calls.  What those callees do with it is NOT pinned by text: the `grpk` cases run a COMPLETE key generation on three members and compare every member's list with the announcement afterwards. -/
+theorem c07_member_list_uses :
+    Gen.DosnodeFlow.participantsUses = [
+      "pdkg.go: participants = g.(*group).participants"]
+    ∧ Gen.DosnodeFlow.groupIdsUses = [
+      "Grouping: group := &group{participants: groupIds}",
+      "Grouping: selfPubc, secrc, errc := genPub(ctx, d.logger, d.suite, d.p.GetID(), groupIds, sessionID)",
+      "Grouping: errcList = append(errcList, sendToMembers(ctx, d.logger, selfPubcs[0], d.p, groupIds, sessionID))",
+      "Grouping: peerPubc := askMembers(ctx, d.logger, d.bufToNode, len(groupIds)-1, 0, sessionID)",
+      "Grouping: partPubsc, errc := exchangePub(ctx, d.logger, selfPubcs[1], peerPubc, d.p, groupIds, sessionID)",
+      "Grouping: dkgcStep1, errc := genDistKeyGenerator(ctx, d.logger, secrc, partPubsc, len(groupIds), d.suite, sessionID)",
+      "Grouping: dkgcStep2, errc := genDealsAndSend(ctx, d.logger, dkgcStep1, d.p, groupIds, sessionID)",
+      "Grouping: dkgcStep3, respsc, errc := getAndProcessDeals(ctx, d.logger, dkgcStep2, askMembers(ctx, d.logger, d.bufToNode, len(groupIds)-1, 1, sessionID), sessionID)",
+      "Grouping: errcList = append(errcList, sendToMembers(ctx, d.logger, respsc, d.p, groupIds, sessionID))",
+      "Grouping: cetifiedDkgc, errc := getAndProcessResponses(ctx, d.logger, dkgcStep3, askMembers(ctx, d.logger, d.bufToNode, (len(groupIds)-1)*(len(groupIds)-1), 2, sessionID), sessionID)"] := by
+  refine ⟨?_, ?_⟩ <;> rfl
+
+example : Gen.DosnodeFlow.participantsUses.length = 1 := by decide
+
 /-- the member list from the chain event to `choseSubmitter`: `onchainLoop` starts `handleGrouping(content.NodeId, groupID)`; `handleGrouping` tests membership and calls `d.dkg.Grouping(ctx, groupID, participants)`; `pdkg.Grouping` stores `&group{participants: groupIds}` with `LoadOrStore` (first announcement wins); `GetGroupIDs` returns that field, `GroupDissolve` deletes the entry; `groupInfo` takes `GetGroupIDs(groupID)`; nothing else writes `participants` and package sort is not used anywhere on the way. -/
 theorem c07_group_table_shape :
     Gen.DosnodeFlow.handleGrouping = [
